@@ -19,6 +19,7 @@ fn <file> :: <impl key> :: <name>          (or  fn <file> :: <name>  for free fu
   loop <k> body_exit
   loop <k> after                            (placed right after the loop)
   entry                                     (function entry)
+  exit                                      (function exit: the body's value is bound to the return name, then these ghost statements run)
   at "<source line>" [#n]                   (placed before the n-th (default 1st) line equal to the text)
   after "<source line>" [#n]
   outline <NAME>
@@ -33,7 +34,7 @@ end
 """
 import re
 
-DIRECTIVES = ('call_ensures', 'tail', 'hook_spec', 'hook_ensures', 'hook_requires', 'nohints', 'closure', 'serves', 'mode', 'ret', 'requires', 'ensures', 'loop', 'entry', 'at', 'after', 'outline', 'extra',
+DIRECTIVES = ('call_ensures', 'tail', 'hook_spec', 'hook_ensures', 'hook_requires', 'nohints', 'closure', 'serves', 'mode', 'ret', 'requires', 'ensures', 'loop', 'entry', 'exit', 'at', 'after', 'outline', 'extra',
               'attr', 'recommends', 'decreases', 'sig', 'nounwind', 'specimpl', 'replace_sig')
 
 
@@ -68,6 +69,7 @@ class Contract:
         self.closures = {}       # k -> dict(params=str, ret=str, requires=[Clause], ensures=[Clause])
         self.loops = {}          # k -> dict(iter=str, ghost=[], invariant=[Clause], ensures=[Clause], decreases=str, body_entry=[], body_exit=[], after=[])
         self.entry = []
+        self.exit = []           # ghost statements at the normal exit (the value of the body is bound to the return name first)
         self.at = []             # (text, n, stmts, where 'before'|'after')
         self.outlines = []
         self.extra = []
@@ -186,6 +188,9 @@ def parse_sidecar(path):
         elif d == 'entry':
             txt, i = block(i + 1)
             cur.entry.append(txt)
+        elif d == 'exit':
+            txt, i = block(i + 1)
+            cur.exit.append(txt)
         elif d in ('at', 'after'):
             mm = re.match(r'"(.*)"\s*(?:#(\d+))?$', rest)
             if not mm:
